@@ -18,16 +18,18 @@ Theorem index
                          "unmodelled:…"), `walk_total_nonquery`
   assembler              `build_total_rw`, `build_errors_only_multi_rename`
   dispatch / silent      `unsupported_raises_or_skips`, `empty_holder_neutral`, `compose_empty_*`, `empty_holder_skipped`,
-                         `analyzeAll_skip`, `silent_skip_neutral`, `silent_skip_neutral_last_partial`
+                         `analyzeAll_skip`, `silent_skip_neutral` (any non‑final position: structural equality of the combined graph),
+                         `silent_skip_neutral_last` (final position: same roles, same column paths, `Ext`‑equal graphs)
 -/
 import SqlLineage.Props.C01
 import SqlLineage.Props.C03
 import SqlLineage.Proofs.WalkErrors
 import SqlLineage.Proofs.C10Assemble
+import SqlLineage.Proofs.C10Ext
 
 namespace SqlLineage.Props.C10
 open SqlLineage Ast Walk Holder Graph Assemble
-open SqlLineage.Proofs.WalkErrors SqlLineage.Proofs.C10Assemble
+open SqlLineage.Proofs.WalkErrors SqlLineage.Proofs.C10Assemble SqlLineage.Proofs.C10Ext
 
 /-! ### 1. holder operations (`core/holders.py`, `core/parser/__init__.py`) -/
 
@@ -324,15 +326,8 @@ theorem silent_skip_neutral (c : Runner.Config) (hc : c.silent = true) (md : Lis
         simp only
         cases resolveAll p'.asmView (tagSelfloops g) (unresolved (tagSelfloops g)) <;> rfl
 
-/- FULL STATEMENT for the last position (not proved as an equality of results):
-     Runner.eval {silent := true} md (a ++ [.unsupported x]) and Runner.eval {silent := true} md a have the same observable
-     results (roles, column paths, exports).
-   What is proved (`silent_skip_neutral_last_partial`): the statement fold of the first script ends in `nx.compose(G, ∅)` where
-   `G` is where the fold of the second ends, and (`compose_empty`) that graph has the same node list, edge list and answers
-   every attribute read like `G`.  MISSING: that the tail of `_build_digraph` (self‑loop tags, unresolved columns, orphans) and
-   the role / path functions read graphs only through those accessors — a congruence lemma per graph operation.  The
-   harness covers the last position by implementation‑vs‑implementation comparison on generated scripts. -/
-theorem silent_skip_neutral_last_partial (c : Runner.Config) (hc : c.silent = true) (p : Runner.Provider)
+/-- the fold-level form of the last position: the statement fold ends in `nx.compose(G, ∅)` -/
+theorem silent_skip_fold_last (c : Runner.Config) (hc : c.silent = true) (p : Runner.Provider)
     (a : List Stmt) (x : String) :
     (match Runner.analyzeAll c p (a ++ [.unsupported x]) with
       | .error e => Except.error e
@@ -350,6 +345,54 @@ theorem silent_skip_neutral_last_partial (c : Runner.Config) (hc : c.silent = tr
     have hlen := analyzeAll_length c _ _ _ _ hab
     simp only [← hlen, List.take_length, List.drop_length]
     exact foldAll_skip_last id hs Graph.empty
+
+/-- the observable results of a combined graph: the three role sets and the column lineage paths (any flag setting) -/
+def SameResults (g g' : LGraph) : Prop :=
+  sourceTables g = sourceTables g' ∧ targetTables g = targetTables g' ∧ intermediateTables g = intermediateTables g' ∧
+  (∀ a b, Paths.columnLineage g a b = Paths.columnLineage g' a b) ∧ Ext g g'
+
+theorem sameResults_of_ext {g g' : LGraph} (h : Ext g g') : SameResults g g' :=
+  ⟨(ext_roles h).1, (ext_roles h).2.1, (ext_roles h).2.2, fun a b => ext_columnLineage h a b, h⟩
+
+private theorem build_eq_tail (prov : Prov) (hs : List LGraph) :
+    Assemble.build prov hs = (match foldAll id Graph.empty hs with | .error e => .error e | .ok g => tail prov g) := by
+  unfold Assemble.build buildWith tail
+  cases foldAll id Graph.empty hs <;> rfl
+
+/-- **`silent_skip_neutral`, last position**: in silent mode a trailing statement of an unsupported type leaves every
+    observable result of the script as it is without the statement: the same error, or combined graphs with the same node
+    and edge lists, tag reads and key objects — hence the same source / target / intermediate tables and the same column
+    lineage paths. -/
+theorem silent_skip_neutral_last (c : Runner.Config) (hc : c.silent = true) (md : List (String × List String))
+    (a : List Stmt) (x : String) :
+    (match Runner.eval c md (a ++ [.unsupported x]), Runner.eval c md a with
+      | .ok r, .ok r' => SameResults r.1 r'.1
+      | .error e, .error e' => e = e'
+      | _, _ => False) := by
+  have hsk := analyzeAll_skip c hc x a [] ⟨md, []⟩
+  simp only [List.append_nil] at hsk
+  simp only [Runner.eval, hsk]
+  cases hab : Runner.analyzeAll c ⟨md, []⟩ a with
+  | error e => simp
+  | ok r =>
+    obtain ⟨p', hs⟩ := r
+    have hlen := analyzeAll_length c _ _ _ _ hab
+    simp only [← hlen, List.take_length, List.drop_length, build_eq_tail, foldAll_skip_last]
+    cases hf : foldAll id Graph.empty hs with
+    | error e => simp
+    | ok G =>
+      simp only
+      have ht := ext_tail p'.asmView (ext_compose_empty G)
+      cases h1 : tail p'.asmView (G.compose Graph.empty) with
+      | error e1 =>
+        cases h2 : tail p'.asmView G with
+        | error e2 => rw [h1, h2] at ht; exact ht
+        | ok g2 => rw [h1, h2] at ht; exact ht.elim
+      | ok g1 =>
+        cases h2 : tail p'.asmView G with
+        | error e2 => rw [h1, h2] at ht; exact ht.elim
+        | ok g2 => rw [h1, h2] at ht; exact sameResults_of_ext ht
+
 
 /-! ### 5. non‑vacuity -/
 
